@@ -239,6 +239,8 @@ func runC07(c *Ctx) {
 		c.guarded(fn, g, 1, "route the hash to its sub-bucket", effects, 1, gDominate)
 	})
 
+	c.rule("C07.V4", blockLocatorDoc, func() { c.blockLocatorToGenesis() })
+
 	c.rule("C07.V1", "appendRaw: the size used to cut a partial write off is the end-of-file offset before the write (the file is opened O_APPEND, so the current offset is not the end of file after open or after a truncate): Seek(0, io.SeekEnd) or Stat().Size()", func() {
 		fn := c.fn(fnAppend)
 		truncM := c.method("headerfs", "File", "Truncate")
@@ -764,4 +766,80 @@ func (c *Ctx) rolledBackEntriesRemoved() {
 		}
 		sort.Strings(bad)
 		c.verdict(len(bad) == 0, "module | no slice element inside a loop is set to the address of a variable declared outside that loop", "", "no such aliasing", "address of a loop-invariant variable stored into slice elements inside a loop (every element aliases the same variable): "+join(bad), "all module functions")
+}
+
+const blockLocatorDoc = "a block locator reaches back to genesis: the walk in blockLocatorFromHash goes on until its height is 0 or the locator is full; its loop is left only on a comparison of the running height with 0, on the length of the locator reaching the message limit, or towards an error return - a walk that stops when the next (doubled) step would overshoot leaves genesis out, and a peer on another branch than all listed hashes cannot locate the fork point"
+
+// blockLocatorToGenesis: see blockLocatorDoc (C07.V4, also C04.O7).
+func (c *Ctx) blockLocatorToGenesis() {
+	fn := c.fn("(*headerfs.blockHeaderStore).blockLocatorFromHash")
+	fetch := c.hfs("blockHeaderStore", "FetchHeaderByHeight")
+	calls := find(fn, callTo(fetch))
+	construct := c.nm(fn) + " | the locator walk ends at height 0 or a full locator"
+	var h *ssa.BasicBlock
+	for _, in := range calls {
+		if lh := ir.LoopHeaderOf(in.Block()); lh != nil {
+			h = lh
+		}
+	}
+	if h == nil {
+		c.fail(construct, c.P.Pos(fn.Pos()), "no loop fetching headers by height")
+		return
+	}
+	inLoop := ir.LoopBlocks(h)
+	isHeight := func(v ssa.Value) bool {
+		p, ok := ir.Strip(v).(*ssa.Phi)
+		if !ok || !inLoop[p.Block()] {
+			return false
+		}
+		for _, in := range calls {
+			_, a := recvAndArgs(in)
+			if len(a) == 1 && ir.DerivesFrom(a[0], func(x ssa.Value) bool { return x == ssa.Value(p) }) {
+				return true
+			}
+		}
+		return false
+	}
+	isLen := func(v ssa.Value) bool {
+		call, ok := ir.Strip(v).(*ssa.Call)
+		return ok && isBuiltin("len")(call)
+	}
+	isConst := func(v ssa.Value) bool { _, ok := ir.ConstInt(ir.Strip(v)); return ok }
+	var bad []string
+	n := 0
+	for _, e := range ir.LoopExits(h) {
+		n++
+		iff, ok := e.From.Instrs[len(e.From.Instrs)-1].(*ssa.If)
+		okExit := false
+		if ok {
+			if b, isB := iff.Cond.(*ssa.BinOp); isB {
+				zero := func(v ssa.Value) bool { k, isC := ir.ConstInt(ir.Strip(v)); return isC && k == 0 }
+				switch {
+				case isHeight(b.X) && zero(b.Y), isHeight(b.Y) && zero(b.X):
+					okExit = true
+				case isLen(b.X) && isConst(b.Y), isLen(b.Y) && isConst(b.X):
+					okExit = true
+				}
+			}
+		}
+		if okExit {
+			continue
+		}
+		// any other way out must fail
+		succeeds := false
+		ir.WalkEdge(e, nil, func(in ssa.Instruction) bool {
+			if r, ok := in.(*ssa.Return); ok {
+				if errSuccess(r) {
+					succeeds = true
+				}
+				return false
+			}
+			return true
+		})
+		if succeeds {
+			bad = append(bad, "the walk can stop at "+c.at(e.From.Instrs[len(e.From.Instrs)-1])+" (neither height 0 nor a full locator) and the locator is returned as complete")
+		}
+	}
+	sort.Strings(bad)
+	c.verdict(n >= 2 && len(bad) == 0, construct, c.P.Pos(fn.Pos()), fmt.Sprintf("%d ways out of the walk: height == 0, locator full, or an error", n), join(bad), c.ats(calls)...)
 }
